@@ -130,7 +130,9 @@ class CrawlServer:
         h.r.events.append(('req', url))
         if h.on_request is not None:
             h.on_request(entry)
-        res = self.site.lookup(origin.key(), target)
+        # (like common servers: percent-encoded dots are dots, dot segments are resolved before the resource is looked up)
+        tpath, tq, tquery = target.partition('?')
+        res = self.site.lookup(origin.key(), refsite.resolve_dot_segments(tpath) + tq + tquery if tpath.startswith('/') else target)
         entry['known'] = res is not None
         beh = self.behaviour.get((origin.key(), target))
         if beh is not None:
